@@ -585,6 +585,45 @@ func c15AsyncRegistration(c *Ctx) {
 	c.Floor("C15.Q2b-async-registration", 1)
 	// Close waits for running syncs, a sync waits for the distributor to take its event, and the distributor hands each
 	// event to every listener: a listener that is not being read must never block it, i.e. listener queues are unbounded
+	// a token given back that was never taken hangs the real holder's release, and with it asyncWG.Done and Close:
+	// the mutexes and the sync-slot semaphore of the package are paired on every path
+	c.LockPairing("C15.Q5-lock-pairing", dagsyncPkg, []string{"Subscriber.syncSem"})
+	c.Floor("C15.Q5-lock-pairing", 8)
+	// a sync that is running when Close begins is allowed to finish: the per-publisher sync routine (and what it calls)
+	// never looks at the shutdown signal
+	if h := c15HandleFn(c); h != nil {
+		fns := map[*ssa.Function]bool{h: true}
+		for _, st := range c.CallsInl(h, Any(), 2) {
+			if callee := st.In.Common().StaticCallee(); callee != nil && samePkgBody(h, callee) {
+				fns[callee] = true
+			}
+		}
+		bad := ""
+		for fn := range fns {
+			instrsDeep(fn, func(g *ssa.Function, in ssa.Instruction) {
+				var chans []ssa.Value
+				switch in := in.(type) {
+				case *ssa.Select:
+					for _, st := range in.States {
+						chans = append(chans, st.Chan)
+					}
+				case *ssa.UnOp:
+					if in.Op == token.ARROW {
+						chans = append(chans, in.X)
+					}
+				}
+				for _, ch := range chans {
+					if x := strip(c.E(ch)); x.Op == "field" && (x.Name == "closing") && fieldOwner(x) == "Subscriber" {
+						bad = c.short(topFunc(g).String()) + " at " + c.pos(in.Pos())
+					}
+				}
+			})
+		}
+		c.Check(bad == "", "C15.Q6-running-syncs-finish", c.short(h.String())+" › ignores the shutdown signal", h.Pos(), "the sync routine never receives from the closing channel", "the sync routine consults the shutdown signal ("+bad+"): an explicit sync that is running when Close begins is aborted instead of being waited for")
+	} else {
+		c.Unk("C15.Q6-running-syncs-finish", "dagsync › per-publisher sync routine", token.NoPos, "not found")
+	}
+	c.Floor("C15.Q6-running-syncs-finish", 1)
 	listenerQueuesUnbounded(c, "C15.Q3-distributor-never-blocks-on-listener")
 	c.Floor("C15.Q3-distributor-never-blocks-on-listener", 2)
 }
